@@ -73,7 +73,9 @@ def steady_state_transport_solver(
         2D or 3D field of kinematic flux at levels or footprint.
     """
 
-    q0 = srf_flx
+    # C-contiguous copy if needed: the FFT of a Fortran-ordered or transposed-view array depends
+    # on the alignment of its buffer, so repeated identical solves were not bit-identical
+    q0 = np.ascontiguousarray(srf_flx)
     p000 = srf_bg_conc
     u, v, Kx, Ky, Kz = profiles
     xmx, ymx = domain
